@@ -22,7 +22,7 @@ func init() { core.Register(c10{}) }
 func (c10) ID() string    { return "C10" }
 func (c10) Level() string { return "exploration" }
 func (c10) Rule() string {
-	return "differential: one scenario (fixed components + tags) is started under 12 (quick) / 24 (thorough) combinations of registration permutation, SingletonRegistry name-enumeration permutation and DefinitionRegistry candidate permutation (k-th permutation of the name-sorted candidate list for k=0..23, which is every permutation of candidate sets of size <= 4; seeded shuffles, sorted, reversed and the native sync.Map order beyond). Scenario families: (a) populations where holders are candidates for their own by-type fields, unique-Primary and unique-unnamed situations, qualified points; (b) cyclic interface graphs with an after-initialization substituting post-processor, where success depends on where creation enters the cycle (only the name sort in Refresh makes that independent of enumeration order). Oracle: all runs agree on success/failure (unless the model says a tie decides reachability of a failing component), every point lies in its tied set (model), and points whose tied set is a singleton receive the same component in every run. non-trivial = scenario with a self-candidate holder, a narrowed multi-candidate point or a wrapped cycle; distinct = canonical scenario signature; populations include several zero-size components of different types; dependent post-processors with MinInt / MaxInt orders; the runner sequence is part of the compared outcome when the contract fixes it; names differing only in case; a plain (not instantiation-aware) post-processor next to the substituter; every 9th case a user scanner rejects one definition (half of them slowly): the start fails in every run; arrays family (array-typed points behave alike in every run); tiedUnnamed family (a tie among un-named candidates next to named ones); lazyWrappedCycle, crowdedDefinitions (every point of crowded definitions populated in every run) and wrappedSliceCycle families"
+	return "differential: one scenario (fixed components + tags) is started under 12 (quick) / 24 (thorough) combinations of registration permutation, SingletonRegistry name-enumeration permutation and DefinitionRegistry candidate permutation (k-th permutation of the name-sorted candidate list for k=0..23, which is every permutation of candidate sets of size <= 4; seeded shuffles, sorted, reversed and the native sync.Map order beyond). Scenario families: (a) populations where holders are candidates for their own by-type fields, unique-Primary and unique-unnamed situations, qualified points; (b) cyclic interface graphs with an after-initialization substituting post-processor, where success depends on where creation enters the cycle (only the name sort in Refresh makes that independent of enumeration order). Oracle: all runs agree on success/failure (unless the model says a tie decides reachability of a failing component), every point lies in its tied set (model), and points whose tied set is a singleton receive the same component in every run. non-trivial = scenario with a self-candidate holder, a narrowed multi-candidate point or a wrapped cycle; distinct = canonical scenario signature; populations include several zero-size components of different types; dependent post-processors with MinInt / MaxInt orders; the runner sequence is part of the compared outcome when the contract fixes it; names differing only in case; a plain (not instantiation-aware) post-processor next to the substituter; every 9th case a user scanner rejects one definition (half of them slowly): the start fails in every run; arrays family (array-typed points behave alike in every run); tiedUnnamed family (a tie among un-named candidates next to named ones); lazyWrappedCycle, crowdedDefinitions (every point of crowded definitions populated in every run) and wrappedSliceCycle families; orderedTie family (a wrapped member on a cycle of components with the same Order())"
 }
 func (c10) Assumptions() []string {
 	return []string{
